@@ -408,10 +408,15 @@ func (p *provider) updateStatus(
 		return
 	}
 
-	// if there is an error, it is always of the below type
+	// errors returned by the api server are of the below type. Other
+	// errors, like connection errors, can only be logged
 	var statusErr *errors2.StatusError
 
-	errors.As(err, &statusErr)
+	if !errors.As(err, &statusErr) {
+		p.l.Warn().Err(err).Msgf("Failed updating RuleSet status")
+
+		return
+	}
 
 	switch statusErr.ErrStatus.Code {
 	case http.StatusNotFound:
